@@ -65,6 +65,8 @@ class Ctx:
     def require(res: Result, rule: str, got: int, expected_min: int, what: str):
         """Anti-vacuity: fewer instances than confirmed by hand => analysis error."""
         res.counters["instances:" + rule] = got
+        if any(f.rule == rule or f.rule == rule.rstrip("abcdefgh") for f in res.findings):
+            return  # the rule has fired: it is certainly not vacuous, and a violating tree may have fewer instances
         if got < expected_min:
             raise AnalysisError(
                 "%s: only %d %s found, at least %d were confirmed on the reference tree -- "
